@@ -23,7 +23,7 @@ OBLIGATIONS = [
 ]
 # C36's own Coq files in dependency order (until they are listed in coq/_CoqProject they are compiled here)
 OWN_FILES = ["C36/RewriteModel.v", "C36/RewriteSpec.v", "C36/NumerDenomSpec.v", "C36/NumerDenomProofs.v",
-             "C36/RewriteProofs.v", "C36/ConjProofs.v", "C36/RealImagProofs.v", "C36/TrigSqrtProofs.v"]
+             "C36/RewriteProofs.v", "C36/ConjProofs.v", "C36/RealImagProofs.v", "C36/TrigSqrtProofs.v", "C36/PowNumberProofs.v"]
 SHARED_DEPS = ["Base/Prelude.vo", "Base/Word64.vo", "Num/NumDefs.vo", "Num/NumModel.vo", "Gen/TypeCodes.vo",
                "Expr/ExprDefs.vo", "Expr/Hash.vo", "Expr/Cmp.vo", "Expr/Arith.vo", "Expr/IO.vo"]
 
@@ -359,7 +359,7 @@ def run(ctx):
     ctx.prove(PROOF_MODULES, obligations)
     drv = ctx.build_driver("c36_driver")
     model = ctx.build_model("C36", "C36/Extract.v", "c36_main.ml", "semodel", extra_ml=["expr_io.ml"])
-    ncases = 1200 if ctx.tier == "quick" else 30000
+    ncases = 3000 if ctx.tier == "quick" else 60000
     cases = list(CORPUS) + [gen_case(ctx.rng) for _ in range(ncases)]
     explore(ctx, drv, model, cases)
     if ctx.broken and not ctx.violations:
